@@ -20,9 +20,9 @@ pub fn spec() -> Spec {
         rule: "one case per (presentation, subgroup generating set): family 'named' = finite groups with independently known order x every set of <= 2 words of length <= L; family 'exhaustive' = every presentation on 2 generators with <= 3 relators among the rotation/inversion classes of cyclically reduced words of length <= 4 on which the reference Todd-Coxeter (HLT, row cap 300) terminates, x every set of <= 2 words of length <= 2; family 'spherical' = fundamental groups (crate presentation) of all spherical DSyms outputs over DSets(2, <= N) x trivial and one-word subgroups. Oracle: index by the reference Todd-Coxeter (= |G|/|H| where known), columns are mutually inverse permutations, transitive, every relator closes at every row, subgroup generators close at row 0, representatives trace to their rows. Non-trivial = index >= 2 and a non-empty generating set.",
         assumptions: &["family 'spherical' takes its presentations from fundamental_group (C09); any presentation is a valid input for this property, so this is a supply, not a trusted oracle"],
         bounds: |t| json!({"named_word_len": 3, "named_max_words": 2,
-            "exhaustive_2gens": {"relator_len": t.pick(4, 5), "max_relators": 3, "sub_word_len": 2, "max_words": 2},
-            "exhaustive_3gens": {"relator_len": t.pick(2, 3), "max_relators": 4, "sub_word_len": 2, "max_words": 1}, "ref_row_cap": 300,
-            "spherical_dsets_max_size": t.pick(5, 7)}),
+            "exhaustive_2gens": {"relator_len": t.pick(5, 6), "max_relators": 3, "sub_word_len": 2, "max_words": 2},
+            "exhaustive_3gens": {"relator_len": 3, "max_relators": t.pick(4, 5), "sub_word_len": 2, "max_words": 1}, "ref_row_cap": 300,
+            "spherical_dsets_max_size": t.pick(7, 8)}),
     }
 }
 
@@ -195,7 +195,7 @@ fn run(ctx: &mut Ctx) {
         }
     }
     // family exhaustive
-    for (ng, rel_len, max_rels) in [(2usize, tier.pick(4, 5), 3usize), (3, tier.pick(2, 3), tier.pick(4, 4))] {
+    for (ng, rel_len, max_rels) in [(2usize, tier.pick(5, 6), 3usize), (3, 3, tier.pick(4, 5))] {
         let classes = cyc_reduced_words(ng, rel_len);
         let ws2 = reduced_words(ng, 2);
         let sets = word_sets(&ws2, if ng == 2 { 2 } else { 1 });
@@ -216,7 +216,7 @@ fn run(ctx: &mut Ctx) {
         }
     }
     // family spherical
-    let sets: Vec<_> = match ctx.guard(|| DSets::new(2, tier.pick(5, 7)).collect::<Vec<_>>()) {
+    let sets: Vec<_> = match ctx.guard(|| DSets::new(2, tier.pick(7, 8)).collect::<Vec<_>>()) {
         Ok(v) => v,
         Err(_) => vec![],
     };
